@@ -132,6 +132,11 @@ def _setup(ex, case):
                 ex.offline_ops += 1
             if op in ("delete", "rmtree", "rmdir", "rename", "rename_dir"):
                 ex.user_removed.add(a[0])
+            if op in ("rename", "rename_dir"):
+                # a stale leftover below a folder that is renamed later shows up under the new name
+                for r in list(ex.user_removed):
+                    if r == a[0] or r.startswith(a[0] + "/"):
+                        ex.user_removed.add(a[1] + r[len(a[0]):])
         return ok, d
     w.user = user
 
